@@ -136,3 +136,16 @@ func init() {
 		os.Exit(0)
 	}
 }
+
+func init() {
+	if len(os.Args) > 2 && os.Args[1] == "loops" {
+		p := Load(LoadOpts{Dir: repoDir(), Patterns: []string{"./..."}, ModPath: modPath, MinPkgs: 13})
+		r := NewReport("X", "quick")
+		ruleLoop(p, r, os.Args[2:])
+		for _, o := range r.Obls {
+			fmt.Println(o.Status, o.Key, o.Pos)
+		}
+		fmt.Println(r.Analysed)
+		os.Exit(0)
+	}
+}
